@@ -14,8 +14,8 @@ ASSUMPTIONS = [
 ]
 
 
-def op(kind, tag, mult, take=None, panic=False):
-    return "proc %s %d %s %s" % (kind, tag, "M" if mult else "S", "all" if take is None else "%s %d" % ("panic" if panic else "take", take))
+def op(kind, tag, mult, take=None, panic=False, how="all"):
+    return "proc %s %d %s %s" % (kind, tag, "M" if mult else "S", how if take is None else "%s %d" % ("panic" if panic else "take", take))
 
 
 def valid_histories(n, start, kinds):
@@ -58,7 +58,7 @@ def monitor(case, il, sl):
     for i, o in enumerate(ops[1:], 1):
         t = o.split()
         kind, tag, mult = t[1], int(t[2]), t[3] == "M"
-        take = None if t[4] == "all" else int(t[5])
+        take = None if t[4] in ("all", "collect", "extend") else int(t[5])
         if mult:
             max_mult = max(max_mult, tag)
         else:
@@ -134,7 +134,9 @@ def gen_valid(tier, seed):
                 ctor = "new %d" % start
                 if start == 1 and cid % 5 == 0:
                     ctor = "default" if cid % 10 == 0 else "new-plain"      # the other two ways to make a smoother
-                cases.append(Case("v%d" % cid, [ctor] + [op(k, t, m) for (k, t, m) in h]))
+                # the caller consumes the iterators with a for loop, with collect() or with Vec::extend
+                how = ["all", "collect", "extend"][cid % 3]
+                cases.append(Case("v%d" % cid, [ctor] + [op(k, t, m, how=how) for (k, t, m) in h]))
     # larger n: sampled kinds, starts incl. 2^63
     big = 5 if tier == "quick" else 6
     hs = list(valid_histories(big, 1, ("A",)))
